@@ -490,7 +490,7 @@ Lemma run_inter_R n lk sh w fs : forall x dq rs x' dq' rs' cr,
 Proof.
   induction fs as [|f r IH]; intros x dq rs x' dq' rs' cr; simpl.
   - intros H; inversion H; subst. split; [apply R_refl|tauto].
-  - destruct (lk && is_del f)%bool.
+  - destruct (defers lk w f).
     + intros H. apply IH in H. destruct H as [H1 H2]. split.
       * eapply R_mono; [| |exact H1]; [intros m it [g [G1 G2]]; exists g; simpl; tauto|intros m [g [G1 G2]]; exists g; simpl; tauto].
       * intros g Hg. destruct (H2 g Hg) as [X|X]; [|tauto]. apply in_app_iff in X. simpl in X. intuition.
@@ -560,7 +560,7 @@ Proof.
   apply flush_go_R in EF. destruct EF as [EF1 EF2].
   destruct (res_eqb out RCrash).
   { intros H; inversion H; subst. exact EF1. }
-  destruct (run_inter n false sh w dq x1 [] rs1) as [[[x2 dq2] rs2] crashed] eqn:ER.
+  destruct (run_inter n nolocks sh w dq x1 [] rs1) as [[[x2 dq2] rs2] crashed] eqn:ER.
   apply run_inter_R in ER. destruct ER as [ER1 _].
   intros H; inversion H; subst.
   eapply R_trans; [exact EF1|].
@@ -1119,20 +1119,23 @@ Proof.
 Qed.
 
 (* ------------------------------------------------------------------ Delete racing a flush *)
+Lemma defers_nolocks w f : defers nolocks w f = false.
+Proof. destruct f; reflexivity. Qed.
+
 Lemma run_inter_prefix n sh w fs : forall x dq rs x' dq' rs' cr,
-  run_inter n false sh w fs x dq rs = (x', dq', rs', cr) ->
+  run_inter n nolocks sh w fs x dq rs = (x', dq', rs', cr) ->
   exists t, rs' = rs ++ t /\ (fs <> [] -> t <> []).
 Proof.
   induction fs as [|f r IH]; intros x dq rs x' dq' rs' cr; simpl.
   - intros H; inversion H; subst. exists []; rewrite app_nil_r; tauto.
-  - destruct (do_fop n sh w f x) as [x1 q]. destruct (res_eqb q RCrash).
+  - rewrite defers_nolocks. destruct (do_fop n sh w f x) as [x1 q]. destruct (res_eqb q RCrash).
     + intros H; inversion H; subst. exists [q]; split; [reflexivity|discriminate].
     + intros H. apply IH in H. destruct H as [t [H1 _]]. exists (q :: t). rewrite H1, <- app_assoc. simpl.
       split; [reflexivity|discriminate].
 Qed.
 
-Lemma flush_locked_del n sh w snap k0 f ord : is_del f = true -> forall x dq rs x' dq' rs' out,
-  flush_go n true sh w snap ord [(k0, [f])] x dq rs = (x', dq', rs', out) ->
+Lemma flush_locked_del n lk sh w snap k0 f ord : defers lk w f = true -> forall x dq rs x' dq' rs' out,
+  flush_go n lk sh w snap ord [(k0, [f])] x dq rs = (x', dq', rs', out) ->
   rs' = rs /\ exists j, dq' = dq ++ repeat f j.
 Proof.
   intros Hf. induction ord as [|k r IH]; intros x dq rs x' dq' rs' out; simpl.
@@ -1155,21 +1158,21 @@ Qed.
 
 (* with the mutex taken by Delete (lk = true): a Delete issued while a flush is running, at any
    position, and acknowledged, leaves the condition deleted when both have returned *)
-Lemma deleted_race_locked n owner s ord k0 X pl s' r ops2 :
-  Inv n owner s ->
-  step n true s (OFlush ord [(k0, [FDelete (owner X) X])] pl) = (s', (r, [ROk])) ->
+Lemma deleted_race_locked n lk owner s ord k0 X pl s' r ops2 :
+  lk_del lk = true -> Inv n owner s ->
+  step n lk s (OFlush ord [(k0, [FDelete (owner X) X])] pl) = (s', (r, [ROk])) ->
   Forall (no_save X) ops2 ->
-  Gone X (api (run_state n true s' ops2)) (loc (sto (run_state n true s' ops2))).
+  Gone X (api (run_state n lk s' ops2)) (loc (sto (run_state n lk s' ops2))).
 Proof.
-  intros [I1 [I2 I3]] H Hns.
+  intros Hlk [I1 [I2 I3]] H Hns.
   assert (Hnd' : NoDup (akeys (api s'))) by (eapply NoDup_step; eassumption).
   apply Gone_run; [exact Hnd'| |exact Hns].
   revert H. unfold step. destruct (dead (sto s)); [intros H; inversion H|].
   unfold do_flush. simpl wloc.
   destruct (negb (key_nodup ord)); [intros H; inversion H|].
-  destruct (flush_go n true (shard (sto s)) (wt (sto s)) (loc (sto s)) ord [(k0, [FDelete (owner X) X])]
+  destruct (flush_go n lk (shard (sto s)) (wt (sto s)) (loc (sto s)) ord [(k0, [FDelete (owner X) X])]
               (mkW (api s) (loc (sto s)) pl) [] []) as [[[x1 dq] rs1] out] eqn:EF.
-  pose proof (flush_locked_del n (shard (sto s)) (wt (sto s)) (loc (sto s)) k0 (FDelete (owner X) X) ord eq_refl _ _ _ _ _ _ _ EF) as [Hrs [j Hdq]]. simpl in Hdq. subst rs1 dq.
+  pose proof (flush_locked_del n lk (shard (sto s)) (wt (sto s)) (loc (sto s)) k0 (FDelete (owner X) X) ord Hlk _ _ _ _ _ _ _ EF) as [Hrs [j Hdq]]. simpl in Hdq. subst rs1 dq.
   apply flush_go_R in EF. destruct EF as [[EF1 [EF2 _]] _].
   assert (HO1 : Owned owner (wapi x1) (wloc x1)).
   { eapply (Owned_pres n (shard (sto s))); [exact I2|exact EF1|right; exact EF2|].
@@ -1183,7 +1186,7 @@ Proof.
   destruct (do_delete (owner X) X x1) as [x1' q] eqn:ED.
   destruct (res_eqb q RCrash) eqn:Eq.
   { intros H; inversion H; subst. simpl in Eq; discriminate. }
-  destruct (run_inter n false (shard (sto s)) (wt (sto s)) (repeat (FDelete (owner X) X) j) x1' [] [q])
+  destruct (run_inter n nolocks (shard (sto s)) (wt (sto s)) (repeat (FDelete (owner X) X) j) x1' [] [q])
     as [[[x2 dq2] rs2] crashed] eqn:ER.
   pose proof (run_inter_prefix _ _ _ _ _ _ _ _ _ _ _ ER) as [t [Ht1 Ht2]].
   intros H; inversion H; subst. simpl in H3. inversion H3; subst.
@@ -1204,14 +1207,65 @@ Definition race_ops : list op :=
 
 Open Scope string_scope.
 Lemma deleted_race_refuted :
-  let s := run_state 1 false (init []) (firstn 2 race_ops) in
+  let s := run_state 1 nolocks (init []) (firstn 2 race_ops) in
   exists s' r,
-    step 1 false s (OFlush [("a", "a.g1")] [(("a", "a.g1"), [FDelete "a" "a.g1"])] []) = (s', (r, [ROk]))
+    step 1 nolocks s (OFlush [("a", "a.g1")] [(("a", "a.g1"), [FDelete "a" "a.g1"])] []) = (s', (r, [ROk]))
     /\ aget "a.g1" (api s') = Some (mkBody "a" 1 2 3)
     /\ lget ("a", "a.g1") (loc (sto s')) = None
-    /\ lget ("a", "a.g1") (loc (sto (run_state 1 false s' [ORestart 0 false; OLoad OOk]))) = Some (mkBody "a" 1 2 3).
+    /\ lget ("a", "a.g1") (loc (sto (run_state 1 nolocks s' [ORestart 0 false; OLoad OOk]))) = Some (mkBody "a" 1 2 3).
 Proof.
   intros s.
-  exists (fst (step 1 false s (OFlush [("a", "a.g1")] [(("a", "a.g1"), [FDelete "a" "a.g1"])] []))), ROk.
+  exists (fst (step 1 nolocks s (OFlush [("a", "a.g1")] [(("a", "a.g1"), [FDelete "a" "a.g1"])] []))), ROk.
+  vm_compute. repeat split; reflexivity.
+Qed.
+
+(* ------------------------------------------------------------------ Save racing a flush (write-through) *)
+(* with the mutex taken by a write-through Save: a Save issued while a flush is running, at any
+   position, and acknowledged, is what the API holds when both have returned — the flush cannot
+   overwrite it with the older version it listed *)
+Lemma save_race_locked n lk s ord k0 c pl s' r :
+  lk_save lk = true -> wt (sto s) = true ->
+  step n lk s (OFlush ord [(k0, [FSave c])] pl) = (s', (r, [ROk])) ->
+  exists b, aget (fst c) (api s') = Some b /\ ceq b (snd c).
+Proof.
+  intros Hlk Hwt. unfold step. destruct (dead (sto s)); [intros H; inversion H|].
+  unfold do_flush. simpl wloc. rewrite Hwt.
+  destruct (negb (key_nodup ord)); [intros H; inversion H|].
+  destruct (flush_go n lk (shard (sto s)) true (loc (sto s)) ord [(k0, [FSave c])]
+              (mkW (api s) (loc (sto s)) pl) [] []) as [[[x1 dq] rs1] out] eqn:EF.
+  assert (Hd : defers lk true (FSave c) = true) by (simpl; rewrite Hlk; reflexivity).
+  pose proof (flush_locked_del n lk (shard (sto s)) true (loc (sto s)) k0 (FSave c) ord Hd _ _ _ _ _ _ _ EF) as [Hrs [j Hdq]].
+  simpl in Hdq. subst rs1 dq.
+  destruct (res_eqb out RCrash); [intros H; inversion H|].
+  destruct j as [|j]; simpl repeat.
+  { rewrite run_inter_nil. intros H; inversion H. }
+  simpl run_inter.
+  destruct (do_save n (shard (sto s)) true c x1) as [x1' q] eqn:ED.
+  destruct (res_eqb q RCrash) eqn:Eq.
+  { intros H; inversion H; subst. simpl in Eq; discriminate. }
+  destruct (run_inter n nolocks (shard (sto s)) true (repeat (FSave c) j) x1' [] [q])
+    as [[[x2 dq2] rs2] crashed] eqn:ER.
+  pose proof (run_inter_prefix _ _ _ _ _ _ _ _ _ _ _ ER) as [t [Ht1 Ht2]].
+  intros H; inversion H; subst. simpl in H3. inversion H3; subst.
+  destruct j as [|j]; [|exfalso; apply Ht2; [simpl; discriminate|reflexivity]].
+  simpl in ER. inversion ER; subst.
+  apply do_save_ack in ED. unfold finish.
+  match goal with |- context [res_eqb ?o RCrash] => destruct (res_eqb o RCrash) end; simpl; exact ED.
+Qed.
+
+(* without it (Delete locks, Save does not): the acknowledged version 2 is overwritten by the listed
+   version 1, the store holds 2, the API holds 1, and the next holder of the shard loads 1 *)
+Lemma save_race_refuted :
+  let lk := mkLocks true false in
+  let c1 := ("a.g1", mkBody "a" 1 1 1) in let c2 := ("a.g1", mkBody "a" 2 2 2) in
+  let s := run_state 1 lk (init []) [ORestart 0 true; OFg (FSave c1) []] in
+  exists s' r,
+    step 1 lk s (OFlush [("a", "a.g1")] [(("a", "a.g1"), [FSave c2])] []) = (s', (r, [ROk]))
+    /\ aget "a.g1" (api s') = Some (snd c1)
+    /\ lget ("a", "a.g1") (loc (sto s')) = Some (snd c2)
+    /\ lget ("a", "a.g1") (loc (sto (run_state 1 lk s' [ORestart 0 true; OLoad OOk]))) = Some (snd c1).
+Proof.
+  intros lk c1 c2 s.
+  exists (fst (step 1 lk s (OFlush [("a", "a.g1")] [(("a", "a.g1"), [FSave c2])] []))), ROk.
   vm_compute. repeat split; reflexivity.
 Qed.
